@@ -63,30 +63,37 @@ func c04R1(a *A, r *Roles, ar *Arms) {
 			a.undecided(rule, key, pos, "return without results")
 			continue
 		}
-		v := ret.Results[0]
-		u, ok := v.(*ssa.UnOp)
-		if !ok || u.Op != token.MUL || !r.Pos.isAddr(u.X) {
-			a.viol(rule, key, pos, "exit returns %s instead of the tracked position cell; Stream stores it as the resume position", describe(v))
-			continue
-		}
-		// no write of the cell between the load and the return
-		stale := false
-		if u.Block() != ret.Block() {
-			stale = true
-		} else {
-			for i := indexIn(u.Block(), u) + 1; i < len(u.Block().Instrs); i++ {
-				if mayWriteCell(u.Block().Instrs[i], u.X) {
-					stale = true
-				}
-			}
-		}
-		if stale {
-			a.viol(rule, key, pos, "exit returns a stale copy of the position cell (loaded before a possible write)")
+		if ok, why := freshPosLoad(r, ret); !ok {
+			a.viol(rule, key, pos, "%s", why)
 			continue
 		}
 		a.hold(rule, key, pos, "returns load(%s)", r.Pos.Name)
 	}
 	a.atLeast(rule, "ret-pos@parser", 3)
+}
+
+// freshPosLoad: the first result of ret is a load of the position cell with no possible write of the cell
+// between the load and the return.
+func freshPosLoad(r *Roles, ret *ssa.Return) (bool, string) {
+	v := ret.Results[0]
+	u, ok := v.(*ssa.UnOp)
+	if !ok || u.Op != token.MUL || !r.Pos.isAddr(u.X) {
+		return false, fmt.Sprintf("exit returns %s instead of the tracked position cell; Stream stores it as the resume position", describe(v))
+	}
+	stale := false
+	if u.Block() != ret.Block() {
+		stale = true
+	} else {
+		for i := indexIn(u.Block(), u) + 1; i < len(u.Block().Instrs); i++ {
+			if mayWriteCell(u.Block().Instrs[i], u.X) {
+				stale = true
+			}
+		}
+	}
+	if stale {
+		return false, "exit returns a stale copy of the position cell (loaded before a possible write)"
+	}
+	return true, ""
 }
 
 // handlerCall finds the call through the handler field in the commit closure.
